@@ -1469,10 +1469,61 @@ def g_registry(mode):
         d.unregister(core.DAEMON_NAME)
         if core.DAEMON_NAME not in d.objectsById:
             fail(group="C16", violated="daemon object could be unregistered")
+        # ... nor replaced, forced or not
+        own = d.objectsById[core.DAEMON_NAME]
+        for force in (False, True):
+            RUNS[0] += 1
+            intruder = Box("intruder")
+            try:
+                d.register(intruder, core.DAEMON_NAME, force=force)
+            except errors.DaemonError:
+                pass
+            if d.objectsById.get(core.DAEMON_NAME) is not own:
+                d.objectsById[core.DAEMON_NAME] = own
+                fail(group="C16", history="register(obj, %r, force=%s)" % (core.DAEMON_NAME, force), violated="the daemon's own object was replaced by a registration")
+        # an id the uri syntax would read differently (the object part of a uri ends at the first '@'): accepted only if the uri handed back designates it
+        for weird in ("ida@elsewhere", "x@y@z", "plain:colon"):
+            RUNS[0] += 1
+            wobj = Box(weird)
+            try:
+                wuri = d.register(wobj, weird)
+            except errors.DaemonError:
+                continue
+            try:
+                if wuri.object != weird:
+                    fail(group="C16", history="register(obj, %r)" % weird, violated="registration accepted, but the uri handed back designates the id %r (a call through it, or through "
+                         "the proxy the object is replaced by, reaches whatever is registered under THAT id)" % wuri.object)
+                with client.Proxy(wuri) as p:
+                    if p.who() != weird:
+                        fail(group="C16", history="register(obj, %r)" % weird, violated="a call through the uri handed back reached %r" % p.who())
+            finally:
+                d.unregister(weird)
         with client.Proxy(d.uriFor(core.DAEMON_NAME)) as p:
             reg = sorted(p.registered())
             if reg != sorted(d.objectsById):
                 fail(group="C16", violated="registered() %r != registry %r" % (reg, sorted(d.objectsById)))
+        # listed known finding: a registered object whose class derives from list / dict is encoded natively by json and msgpack (their `default` hook, where the
+        # auto-proxy replacement lives, is only asked about objects the encoder cannot handle itself), so it travels by value there; serpent proxies it
+        RUNS[0] += 1
+        ListLike = api.expose(type("ListLike", (list,), {"who": lambda self: "listlike"}))
+        ll = ListLike()
+        REG["listlike"] = ll
+        d.register(ll, "idlistlike")
+        try:
+            kinds = {}
+            for sername in ("serpent", "json", "msgpack"):
+                with client.Proxy(ua) as p:
+                    p._pyroSerializer = sername
+                    try:
+                        kinds[sername] = type(p.give("listlike")).__name__
+                    except Exception as x:      # noqa
+                        kinds[sername] = type(x).__name__
+            if kinds.get("serpent") != "Proxy":
+                fail(group="C16", violated="a registered list subclass did not arrive as a proxy under serpent: %r" % kinds)
+            if (kinds.get("json") != "Proxy" or kinds.get("msgpack") != "Proxy") and "C16-container-subclass-by-value-under-json-msgpack" not in KNOWN:
+                KNOWN.append("C16-container-subclass-by-value-under-json-msgpack")
+        finally:
+            d.unregister("idlistlike")
         # an object of a class the serializers have never seen is returned BEFORE it is registered (travels by value), then registered: now it must arrive as a proxy
         # (subclass of an already registered class, and a class of its own)
         for sername in ("serpent", "json", "msgpack"):
